@@ -438,6 +438,7 @@ class SimRadio:
         self.xfers_in_cs = 0
         self.uid = 0
         self.rx_overflow = 0  # packets dropped because the RX FIFO was full
+        self.rx_flushed_unread = 0  # received payloads destroyed by FLUSH_RX before anybody read them
 
     # ------------------------------------------------------------------ derived values
     def status(self):
@@ -623,6 +624,7 @@ class SimRadio:
             self.pending_ack.clear()
             self.reuse = False
         elif cmd == 0xE2:  # FLUSH_RX
+            self.rx_flushed_unread += len(self.rx_fifo)
             self.rx_fifo.clear()
         elif cmd == 0xE3:  # REUSE_TX_PL
             self.reuse = True
